@@ -545,7 +545,57 @@ func c10Nontrivial(t *reNode) bool {
 	return nt
 }
 
+// c10ClassAgreement: for the Unicode classes (whose tables are marked TODO upstream, so no reference meaning is assumed) the
+// two routes must at least agree with each other, wherever the class stands.
+func c10ClassAgreement(c *ctx) {
+	cats := []string{"Math", "Emoji", "Greek", "Cyrillic", "Persian", "Letter", "Lu", "Ll", "Lt", "Lm", "Lo", "L",
+		"Mark", "Mn", "Mc", "Me", "M", "Number", "Nd", "Nl", "No", "N", "Punctuation", "Pc", "Pd", "Ps", "Pe", "Pi", "Pf", "Po", "P",
+		"Separator", "Zs", "Zl", "Zp", "Z", "Symbol", "Sm", "Sc", "Sk", "So", "S"}
+	forms := []string{`\p{%s}`, `\P{%s}`, `a\p{%s}b`, `(ab|\p{%s})+c`, `x\p{%s}{2,3}|y`, `\p{%s}?z`, `\p{%s}*`, `[\p{%s}q]r`, `[^\p{%s}]`, `x\P{%s}{1,2}y|\p{%s}`}
+	for _, x := range cats {
+		for _, f := range forms {
+			if !c.mine() {
+				continue
+			}
+			p := strings.ReplaceAll(f, "%s", x)
+			c.eval()
+			var astD, nfaD *auto.DFA
+			var errA, errN error
+			pv, _ := safely(func() {
+				var a *rast.AST
+				if a, errA = rast.Parse(p); errA == nil {
+					astD = a.ToDFA()
+				}
+				var n *auto.NFA
+				if n, errN = nfa.Parse(p); errN == nil {
+					nfaD = n.ToDFA()
+				}
+			})
+			if pv != nil {
+				c.inconclusive("panic (C14's business)")
+				continue
+			}
+			if (errA == nil) != (errN == nil) {
+				c.violate(violation{Case: "class-agreement", Input: p, Observed: fmt.Sprintf("followpos route err=%v, NFA route err=%v", errA, errN), Expected: "both routes accept or both reject the pattern"})
+				continue
+			}
+			if errA != nil {
+				c.inconclusive("pattern rejected (C09's business)")
+				continue
+			}
+			c.nontrivial(p)
+			d := langCompare(fromAutoDFA(nfaD), fromAutoDFA(astD))
+			c.count("unicode_class_patterns_compared_between_the_routes", 1)
+			if !d.Equal {
+				c.violate(violation{Case: "class-agreement", Input: p, Observed: fmt.Sprintf("followpos route: %q is %s", d.Witness, accWord(!d.AAccepts)),
+					Expected: fmt.Sprintf("%q is %s, as in the automaton built through the NFA route", d.Witness, accWord(d.AAccepts))})
+			}
+		}
+	}
+}
+
 func runC10(c *ctx) {
+	c10ClassAgreement(c)
 	cases := patternPopulation(c, true)
 	exh := map[string]bool{}
 	for _, pc := range cases {
